@@ -319,12 +319,37 @@ def integrate(
     init_recording = jnp.expand_dims(init_recs, axis=0)
 
     # Run simulation.
-    all_states, recordings = nested_checkpoint_scan(
-        _body_fun,
-        all_states,
-        externals,
-        length=length,
-        nested_lengths=checkpoint_lengths,
-    )
+    if length > nsteps_to_return:
+        # `prod(checkpoint_lengths)` exceeds the requested duration, so the scan runs
+        # additional (padding) steps. Their recordings are cut off below, and they
+        # must not advance the states returned with `return_states=True` either.
+        is_real_step = jnp.arange(length) < nsteps_to_return
+
+        def _masked_body_fun(state, xs):
+            step_externals, is_real = xs
+            # `step_fn` updates the dictionary in place, so keep the previous entries.
+            previous_state = dict(state)
+            new_state, recs = _body_fun(state, step_externals)
+            state = {
+                key: jnp.where(is_real, new_state[key], previous_state[key])
+                for key in new_state
+            }
+            return state, recs
+
+        all_states, recordings = nested_checkpoint_scan(
+            _masked_body_fun,
+            all_states,
+            (externals, is_real_step),
+            length=length,
+            nested_lengths=checkpoint_lengths,
+        )
+    else:
+        all_states, recordings = nested_checkpoint_scan(
+            _body_fun,
+            all_states,
+            externals,
+            length=length,
+            nested_lengths=checkpoint_lengths,
+        )
     recs = jnp.concatenate([init_recording, recordings[:nsteps_to_return]], axis=0).T
     return (recs, all_states) if return_states else recs
